@@ -116,10 +116,16 @@ pub struct ReaderShared {
     pub polls: AtomicUsize,
     /// set when the reader parked on a `Term` item and wants the gate terminated
     pub want_term: tokio::sync::Notify,
+    /// end of input was delivered more than `EOF_SPIN` times: the caller keeps reading a closed
+    /// stream (busy loop); the reader parks and tells the engine
+    pub eofs: AtomicUsize,
+    pub spinning: tokio::sync::Notify,
 }
+pub const EOF_SPIN: usize = 64;
 
-/// Called right before every fault / end-of-input / termination event is delivered: everything
-/// read before has been completely processed by the (sequential) session loop at that moment.
+/// Called at the start of every `read_exact` (first poll with nothing filled yet) and right before
+/// every fault / end-of-input / termination event is delivered: everything read before has been
+/// completely processed by the (sequential) session loop at that moment.
 pub type EventFn = Arc<dyn Fn() + Send + Sync>;
 
 pub struct ScriptReader {
@@ -148,9 +154,17 @@ impl AsyncRead for ScriptReader {
             cx.waker().wake_by_ref();
             return Poll::Pending;
         }
+        if buf.filled().is_empty() && !me.items.is_empty() {
+            if let Some(f) = &me.on_event { f(); }
+        }
         loop {
             match me.items.front() {
                 None => {
+                    if me.shared.eofs.fetch_add(1, SeqCst) >= EOF_SPIN {
+                        me.parked = true;
+                        me.shared.spinning.notify_one();
+                        return Poll::Pending;
+                    }
                     if let Some(f) = &me.on_event { f(); }
                     return Poll::Ready(Ok(())); // end of input: zero bytes
                 }
@@ -302,7 +316,7 @@ pub fn panic_signature(site: &str) -> String {
     format!("panic:{}:{}", file, words.join("-"))
 }
 pub fn sanitize(s: &str) -> String {
-    s.chars().map(|c| if c.is_ascii_graphic() { c } else { '_' }).take(120).collect()
+    { let t: String = s.chars().map(|c| if c.is_ascii_graphic() { c } else { '_' }).collect(); let n = t.len(); if n > 160 { format!("{}..{}", &t[..40], &t[n - 110..]) } else { t } }
 }
 
 // --------------------------------------------------------------- messages
